@@ -70,6 +70,15 @@ def items(tier, seed):
         us = [u for u in db.GetUnits(qt) if getattr(db.GetInfo(qt, u).tobase, "__a__", 0.0) == 0.0 and getattr(db.GetInfo(qt, u).tobase, "__d__", 0.0) == 0.0]
         if not us or us[0] != db.GetUnits(qt)[0]:
             continue
+        low = {}
+        for u in us:
+            low.setdefault(u.lower(), []).append(u)
+        for grp in low.values():  # symbols that differ only in case (mPa / MPa ...), both orders, both operators
+            for u in grp:
+                for v in grp:
+                    if u != v:
+                        out.append({"A": ["leaf", u, qt], "B": ["leaf", v, qt], "op": "table", "sub": "mul", "qt": qt})
+                        out.append({"A": ["leaf", u, qt], "B": ["leaf", v, qt], "op": "table", "sub": "div", "qt": qt})
         for j, u in enumerate(us[1:]):
             out.append({"A": ["leaf", u, qt], "B": ["leaf", us[0], qt], "op": "table", "sub": ("mul", "div")[j % 2], "qt": qt})
             out.append({"A": ["leaf", us[0], qt], "B": ["leaf", u, qt], "op": "table", "sub": ("div", "mul")[j % 2], "qt": qt})
@@ -87,6 +96,9 @@ def items(tier, seed):
     for op in ("mul", "div", "rdiv"):
         for kb in ("list", "tuple"):
             out.append({"A": ["leaf", "m", "length"], "B": ["leaf", "s", "time"], "op": "aux_int_dtype", "aop": op, "kb": kb})
+    for i, c in enumerate(out):
+        if c["op"] in ("pow", "self_div") and i % 2 == 0:
+            c["tuple_prelude"] = True
     for c in out:
         if c["op"] == "mul" and not c.get("arr"):
             c["canary"] = True
@@ -138,6 +150,20 @@ def run(cfg, V):
         r = f(A, B)
         want = [f(Scalar(float(a), "m"), Scalar(b, "s")) for a, b in zip(ia, fb)]
         return {"aux": ([float(v) for v in r.GetValues()], [float(w.GetValue()) for w in want], r.GetUnit(), want[0].GetUnit())}
+    if cfg.get("tuple_prelude"):
+        # history: the powers of the leaf units were first requested as derived quantities whose entries are (unit, exponent) TUPLES
+        from collections import OrderedDict
+        from barril.units import Quantity
+
+        def _leaves(sp):
+            return [sp] if sp[0] == "leaf" else [x for s_ in sp[1:] if isinstance(s_, list) for x in _leaves(s_)] if sp[0] != "num" else []
+
+        for _lf in _leaves(cfg["A"]):
+            for e_ in (2, 3, -1):
+                try:
+                    Quantity.CreateDerived(OrderedDict([(_lf[2], (_lf[1], e_))]))
+                except Exception:  # noqa
+                    pass
     ctr = [0]
     cls = leaf_class(cfg.get("arr"), bool(cfg.get("empty")))
     A = build(cfg["A"], V, ctr, cls)
